@@ -422,7 +422,7 @@ def _legacy_pool(vc, w, conns, trash=()):
     return pool, lock
 
 
-@harness('C45', 'HostConnectionPool.shutdown', functions=[HP + 'shutdown'])
+@harness('C45', 'HostConnectionPool.shutdown', functions=[HP + 'shutdown'], native='contracts.native.c45:replay')
 def legacy_shutdown(vc):
     """ensures the legacy (protocol v1/v2) pool's shutdown() closes every pooled and every trashed connection once, and is idempotent"""
     w = P.World(vc)
@@ -437,7 +437,7 @@ def legacy_shutdown(vc):
     vc.check('idempotent', all(len(c.close_calls) == 1 for c in w.opened))
 
 
-@harness('C45', 'HostConnectionPool._add_conn_if_under_max', functions=[HP + '_add_conn_if_under_max'])
+@harness('C45', 'HostConnectionPool._add_conn_if_under_max', functions=[HP + '_add_conn_if_under_max'], native='contracts.native.c45:replay')
 def legacy_add(vc):
     """ensures, with shutdown() injected while the legacy pool opens an additional connection or while that connection selects the keyspace (the two
     blocking calls), or before, or never: once both have finished no connection the pool opened is left open on a shut-down pool"""
